@@ -1,6 +1,6 @@
 (* C18 — incrementally built structures equal the one-shot definition. *)
 From Coq Require Import Lia.
-From VF Require Import Model.Writer Proofs.LayoutCorrect Proofs.CommitProps Gen.GeneratedOk.
+From VF Require Import Model.Writer Model.Compiler Proofs.LayoutCorrect Proofs.CommitProps Proofs.CommitCompiled Gen.GeneratedOk.
 Open Scope string_scope. Open Scope list_scope. Open Scope Z_scope.
 
 (* The layout loop (StructureMetaType._calculate_size_and_offsets) run over fields that already carry the offsets an earlier run
@@ -19,6 +19,18 @@ Theorem every_splitting_is_oneshot : forall c al chunks, chunks <> [] -> fresh (
   build c al [] chunks = oneshot c al (List.concat chunks).
 Proof. exact incremental_is_oneshot. Qed.
 
+(* the COMPILED reader: the class as it stands after any sequence of add_field / commit steps (its fields carry the offsets of the earlier commits, the
+   generator runs again at the last commit) compiles to the plan of the one-shot definition, and the generated reader returns what the one-shot
+   class's generated reader returns, on every stream and position *)
+Theorem plan_after_commits_is_the_oneshot_plan : forall c al chunks F, chunks <> [] -> fresh (List.concat chunks) -> aligns_ok c al (List.concat chunks) ->
+  build c al [] chunks = Ok F -> compile_plan c al F = compile_plan c al (List.concat chunks).
+Proof. exact plan_after_commits_is_oneshot_plan. Qed.
+Theorem compiled_reader_after_commits_is_the_oneshot_reader : forall c fuel al chunks F, chunks <> [] -> fresh (List.concat chunks) -> aligns_ok c al (List.concat chunks) ->
+  build c al [] chunks = Ok F -> forall s pos, read_compiled c fuel al F s pos = read_compiled c fuel al (List.concat chunks) s pos.
+Proof. exact compiled_reader_after_commits_is_oneshot. Qed.
+
+Print Assumptions plan_after_commits_is_the_oneshot_plan.
+Print Assumptions compiled_reader_after_commits_is_the_oneshot_reader.
 Print Assumptions layout_idempotent.
 Print Assumptions layout_incremental.
 Print Assumptions every_splitting_is_oneshot.
@@ -44,3 +56,9 @@ Example ex_splits :
   option_map (map f_off) (match oneshot ex_cfg true [f1; f2; f3; f4; f5; f6] with Ok x => Some x | Err _ => None end)
     = Some [Some 0; None; Some 4; Some 8; Some 10; None].
 Proof. vm_compute. repeat split. Qed.
+Example ex_compiled : exists F p, build ex_cfg true [] [[f1; f2]; [f3]; [f4; f5; f6]] = Ok F /\ compile_plan ex_cfg true F = Ok p /\
+  compile_plan ex_cfg true [f1; f2; f3; f4; f5; f6] = Ok p /\
+  read_compiled ex_cfg 50 true F [255; 0; 0; 0; 1; 2; 3; 4; 2; 0; 7; 0; 8; 0; 0; 0; 9; 9; 9; 9] 0 =
+  read_compiled ex_cfg 50 true [f1; f2; f3; f4; f5; f6] [255; 0; 0; 0; 1; 2; 3; 4; 2; 0; 7; 0; 8; 0; 0; 0; 9; 9; 9; 9] 0 /\
+  exists v, read_compiled ex_cfg 50 true F [255; 0; 0; 0; 1; 2; 3; 4; 2; 0; 7; 0; 8; 0; 0; 0; 9; 9; 9; 9] 0 = Ok (v, 20).
+Proof. eexists. eexists. split; [vm_compute; reflexivity|]. split; [vm_compute; reflexivity|]. split; [vm_compute; reflexivity|]. split; [vm_compute; reflexivity|]. eexists. vm_compute. reflexivity. Qed.
